@@ -188,8 +188,10 @@ func cmdCheck(verifDir, repoDir string, args []string) int {
 	tmp, _ := os.MkdirTemp("", "rtpverify-q")
 	defer os.RemoveAll(tmp)
 	cfg := &solverCfg{quickTO: 20, fallback: 60, seed: seed, workers: (runtime.NumCPU() + 1) / 2, tmp: tmp, keepFiles: keep}
+	cfg.failFast = 3
 	if tier == "thorough" {
 		cfg.quickTO, cfg.fallback = 60, 120
+		cfg.failFast = 0
 	}
 	if keep {
 		cfg.tmp = filepath.Join(verifDir, "replays", "queries-"+prop)
@@ -212,15 +214,23 @@ func cmdCheck(verifDir, repoDir string, args []string) int {
 	// second chance: obligations that only timed out are retried with the machine to
 	// themselves (two at a time, longer limits); solver answers under full load are not final
 	var retry []*Obl
+	definite := false
 	for _, o := range all {
 		if o.Verdict == "failed-unknown" && !o.shortFirst {
 			retry = append(retry, o)
 		}
+		if o.Verdict == "failed-sat" {
+			definite = true
+		}
 	}
-	if len(retry) > 0 && len(retry) <= 40 {
+	if definite && tier != "thorough" {
+		retry = nil // a solver produced a counter-model: the run has failed whatever a retry says
+	}
+	if len(retry) > 0 && len(retry) <= 6 {
 		c2 := *cfg
 		c2.workers = 3
-		c2.quickTO, c2.fallback = cfg.quickTO*3, cfg.fallback*2
+		c2.failFast = 0
+		c2.quickTO, c2.fallback = cfg.quickTO*2, cfg.fallback
 		for _, o := range retry {
 			o.Verdict, o.Detail = "", ""
 		}
@@ -239,6 +249,9 @@ func cmdCheck(verifDir, repoDir string, args []string) int {
 	for i, o := range all {
 		switch o.Verdict {
 		case "discharged", "ok":
+			continue
+		case "not-run":
+			rep.notRun++
 			continue
 		case "conflict":
 			engineErrs = append(engineErrs, "solvers disagree on "+o.Name+" ("+o.Detail+")")
